@@ -175,6 +175,22 @@ def handle (st : St) (line : String) : St × String :=
         | .ok s => (st, "ok " ++ showInts ((List.range dims).map s.out))
         | .error p => (st, s!"err {p}")
       | _, _, _ => (st, "err parse")
+  | ["IOW", t, shape] =>
+      match parseNats shape with
+      | some sh =>
+        let a : TensorIO.Tensor Nat := { shape := sh, get := fun _ => 0 }
+        let r := TensorIO.write (μ := Unit) (ν := Unit) true (t == "1") a () ()
+        let back := (TensorIO.read r).1
+        (st, s!"{showNats r.data.shape} {r.transpose} {r.sparse} {showNats r.support} {showNats back.shape}")
+      | none => (st, "err parse")
+  | ["JSONSHAPE", shape] =>
+      match parseNats shape with
+      | some sh => (st, showNats (TensorIO.shapeOf (TensorIO.toNested sh (fun _ => (0 : Nat)))))
+      | none => (st, "err parse")
+  | ["LOADCHECK", m, sg] =>
+      match parseInts m, parseInts sg with
+      | some m, some sg => (st, match TensorIO.loadCheck m sg with | .ok _ => "ok" | .error e => s!"err {e}")
+      | _, _ => (st, "err parse")
   | ["KIND", a, b] =>
       match Kind.ofString a, Kind.ofString b with
       | some a, some b => (st, (promote a b).toString)
